@@ -25,7 +25,8 @@ fn edge_version(rng: &mut StdRng) -> u64 {
 }
 
 fn ts(rng: &mut StdRng) -> time::Utc {
-    time::UNIX_EPOCH + time::Duration::seconds([0i64, 1, 2, 1_000_000, -5][rng.gen_range(0..5)])
+    // whole seconds and sub-second offsets (two announcements of one validator may differ by less than a second)
+    time::UNIX_EPOCH + time::Duration::seconds([0i64, 1, 2, 1_000_000, -5][rng.gen_range(0..5)]) + time::Duration::milliseconds([0i64, 0, 100, 900, 999][rng.gen_range(0..5)])
 }
 
 fn newer(a: &validator::NetAddress, b: &validator::NetAddress) -> bool {
